@@ -22,7 +22,7 @@ RULE = ("synthetic: every structural pattern per variable {at lb, interior, at u
         "real runs. Non-trivial = input with >=1 variable on a bound with outward gradient and >=1 breakpoint crossed; distinct = distinct inputs (hash)")
 ASSUMPTIONS = [
     "reference: breakpoints + exact 1-D minimisation of the dense model per segment (Byrd-Lu-Nocedal section 4)",
-    "point tolerance 1e-9*max(1,|x|,|step|) for cond(B)<=1e8 (calibrated, see maxima); breakpoints within 1e-10 relative of t* are exempt from the exact-pinning clause",
+    "point tolerance 1e-9*max(1,|x|,|step|) for cond(B)<=1e8 plus 64x the rounding amplification of incrementally updated f', f'' (ratio of first to last segment curvature); calibrated, see maxima; breakpoints within 1e-10 relative of t* are exempt from the exact-pinning clause",
     "inputs with zero projected gradient are outside the statement's premise and skipped",
 ]
 PT_TOL = 1e-9
@@ -32,7 +32,7 @@ KMAX = 1e8
 
 def floors(tier):
     return {"gcp_judged": 3000, "outward_on_bound": 800, "breakpoints_crossed_inputs": 800, "c_checked": 1500,
-            "intercepted_calls": 300, "__nontrivial__": 400}
+            "intercepted_calls": 200, "tie_inputs": 600, "__nontrivial__": 200}
 
 
 def exhaustive(tier):
@@ -90,8 +90,9 @@ def judge_gcp(out, x, g, lb, ub, mats, B, xcp, c, where, tags):
     # 3. the point itself
     scale = max(1.0, float(np.max(np.abs(x))), float(np.max(np.abs(ref["xcp"] - x))))
     err = float(np.max(np.abs(xcp - ref["xcp"])))
-    out.maxi("max_point_err_over_scale", err / scale)
-    if not (err <= PT_TOL * scale * max(1.0, kappa / 1e4)):
+    tol = PT_TOL * scale * max(1.0, kappa / 1e4) + 64 * ref["cancellation"]
+    out.maxi("max_point_err_over_tol", err / tol)
+    if not (err <= tol):
         out.violate("gcp_differs_from_reference", f"{where}: x_cp={xcp.tolist()} but first local minimiser along P(x-tg) is {ref['xcp'].tolist()} "
                     f"(t*={ref['tstar']!r}, err {err:.3e}); x={x.tolist()} g={g.tolist()} lb={lb.tolist()} ub={ub.tolist()}", **tags)
         return True
@@ -111,7 +112,8 @@ def judge_gcp(out, x, g, lb, ub, mats, B, xcp, c, where, tags):
         cerr = float(np.max(np.abs(np.asarray(c) - want))) if want.size else 0.0
         out.count("c_checked")
         out.maxi("max_c_err_over_scale", cerr / cs)
-        if not (cerr <= C_TOL * cs * max(1.0, kappa / 1e4)):
+        ctol = C_TOL * cs * max(1.0, kappa / 1e4) + 64 * ref["cancellation"] * float(np.max(np.abs(mats.W))) * n
+        if not (cerr <= ctol):
             out.violate("aux_vector_not_Wt_step", f"{where}: c={np.asarray(c).tolist()} but W^T(x_cp-x)={want.tolist()} (err {cerr:.3e}, scale {cs:.3e}); "
                         f"x={x.tolist()} g={g.tolist()} lb={lb.tolist()} ub={ub.tolist()}", **tags)
             return True
@@ -212,6 +214,9 @@ def cases(tier, seed):
     nr = 250 if tier == "quick" else 8000
     for i in range(nr):
         yield {"kind": "random", "seed": subseed("C08r", seed, i) % (2**31), "count": 20}
+    nt = 150 if tier == "quick" else 5000
+    for i in range(nt):
+        yield {"kind": "ties", "seed": subseed("C08t", seed, i) % (2**31), "count": 20}
     nruns = 150 if tier == "quick" else 4000
     rng = np.random.default_rng(subseed("C08runs", seed))
     fams = ("qp", "qp_quartic", "qp_softplus", "rosenbrock", "styblinski_tang", "rastrigin")
@@ -323,6 +328,38 @@ def run(spec):
                 out.count("random_inputs")
                 one_input(out, x, g, lb, ub, mats, B, f"random n={n} pairs={npairs}", dict(source="random"), keys)
                 last = dict(n=n, pairs=npairs, x=x, g=g, lb=lb, ub=ub)
+                if out.violations:
+                    break
+            out.sample = dict(spec=spec, last_input=last)
+        elif spec["kind"] == "ties":
+            # exact ties: dyadic data, so that several variables reach their bounds at exactly the same t
+            rng = np.random.default_rng(spec["seed"])
+            last = None
+            for j in range(spec["count"]):
+                n = int(rng.integers(2, 9))
+                npairs = int(rng.integers(1, 6))
+                mm = make_memory(rng, n, npairs, convex=True)
+                if mm is None:
+                    out.count("skipped_memory_inconsistent")
+                    continue
+                mats, B = mm
+                t0 = float(2.0 ** rng.integers(-3, 2))
+                x = rng.integers(-16, 17, n) / 8.0
+                g = rng.integers(1, 33, n) / 16.0 * rng.choice([-1.0, 1.0], n)
+                lb = np.full(n, -np.inf)
+                ub = np.full(n, np.inf)
+                tied = rng.random(n) < 0.7
+                for i in range(n):
+                    tt = t0 if tied[i] else t0 * float(2.0 ** rng.integers(1, 4))
+                    if rng.random() < 0.15:
+                        continue  # unbounded in its direction of motion
+                    if g[i] > 0:
+                        lb[i] = x[i] - tt * g[i]
+                    else:
+                        ub[i] = x[i] - tt * g[i]
+                out.count("tie_inputs")
+                one_input(out, x, g, lb, ub, mats, B, f"ties n={n} pairs={npairs} t0={t0}", dict(source="ties"), keys)
+                last = dict(n=n, pairs=npairs, t0=t0, x=x, g=g, lb=lb, ub=ub)
                 if out.violations:
                     break
             out.sample = dict(spec=spec, last_input=last)
